@@ -243,6 +243,7 @@ class Analysis:
             if isinstance(n, ast.For):
                 self.for_of_iter[id(n.iter)] = n
         self.fns = [self._fn_info(a) for a in self.analyzers]
+        self._independent_fndefs()
         self.nonmono = {str(a.scope.function_name): sorted(a._nonmono) for a in self.analyzers if a._nonmono}
         self.by_def = {fi.def_id: fi for fi in self.fns}
         # annotations on the whole tree
@@ -306,6 +307,45 @@ class Analysis:
             todo.extend(succ[x])
         fi.reach = sorted(seen)
         return fi
+
+    def _independent_fndefs(self):
+        """Reaching definitions of function NAMES computed here, from the CFG alone: a `def` statement defines its name,
+        nothing ever kills a definition, every definition that reaches a node along SOME path counts; a nested function
+        starts from what reaches its own `def` statement.  Compared with the real DEFINED_FNS_IN annotation (which is an
+        input of the model and of `_update_closure_types`)."""
+        self.defs_mismatch = []
+        indep_at_def = {}
+        for fi in sorted(self.fns, key=lambda f: f.def_id):
+            ext = indep_at_def.get(fi.def_id, frozenset())
+            succ = {d['id']: d['succs'] for d in fi.nodes}
+            isdef = {d['id']: isinstance(d['ast'], ast.FunctionDef) for d in fi.nodes}
+            din = {i: set() for i in succ}
+            din[fi.entry] = set(ext)
+            work = [fi.entry]
+            seen = set()
+            while work:
+                i = work.pop()
+                out = din[i] | ({i} if isdef[i] else set())
+                first = i not in seen
+                seen.add(i)
+                for k in succ[i]:
+                    if not out <= din[k] or k not in seen:
+                        din[k] |= out
+                        work.append(k)
+                if first:
+                    pass
+            for d in fi.nodes:
+                if d['id'] not in fi.reach:
+                    continue
+                if isdef[d['id']]:
+                    indep_at_def[d['id']] = frozenset(din[d['id']])
+                # the real analysis starts a re-visit of a node from that node's previous OUT, so a `def` node visited
+                # twice counts itself (and a nested function then sees itself) — harmless, schedule dependent: ignored
+                ign = {fi.def_id} | ({d['id']} if isdef[d['id']] else set())
+                real = {i for i, _ in d['defs_in']}
+                if real - ign != din[d['id']] - ign:
+                    self.defs_mismatch.append({'function': fi.fdef.name, 'node': d['id'], 'line': getattr(d['ast'], 'lineno', None),
+                                               'real': sorted(real), 'independent': sorted(din[d['id']])})
 
     # ------------------------------------------------------------------ serialisation for the driver
     def env_sexp(self, fi):
